@@ -37,7 +37,7 @@ inductive Wrapper where
 
 /-- Scripted behaviour of the external program. -/
 inductive Tool where
-  | ok | reorder | garbageEmpty | garbageRagged | garbageMissing | garbageTree | exit3 | hang | missing
+  | ok | reorder | garbageEmpty | garbageRagged | garbageMissing | garbageLength | garbageTree | exit3 | hang | missing
   deriving DecidableEq, Repr
 
 inductive Child where
@@ -251,8 +251,9 @@ def find (h : Nat) : List (Nat × Nat) → Option Nat
   | [] => none
   | (k, r) :: rest => if k = h then some r else find h rest
 
-/-- `MSAApp.evaluate`: `out_seq_str[i] = seq_dict[str(i)]` for every input index (KeyError if absent), ragged rows are
-rejected by `trace_from_strings`, `_order[i] = int(header_i)`. -/
+/-- `MSAApp.evaluate`: `out_seq_str[i] = seq_dict[str(i)]` for every input index (KeyError if absent); a row whose
+symbol count differs from its input sequence is rejected (ValueError), rows of unequal length are rejected by
+`trace_from_strings`; `_order[i] = int(header_i)`.  `ragged` = "some row fails one of the two length checks". -/
 def findAll (out : List (Nat × Nat)) : List Nat → Option (List Nat)
   | [] => some []
   | i :: is =>
@@ -274,19 +275,23 @@ def readsTree (w : Wrapper) (treeSet : Bool) : Bool :=
   | .mafft => true
   | _ => false
 
+/-- Does the program's output contain a row failing a length check (unequal row lengths / wrong symbol count)? -/
+def badLengths (t : Tool) : Bool := t = .garbageRagged ∨ t = .garbageLength
+
 /-- `evaluate()` along the `super()` chain. -/
 def evaluate (s : St) : Except Err (Option (List Nat × List Nat)) :=
   match s.w with
   | .base =>
     if s.tool = .exit3 then .error errSubprocess
-    else if s.tool = .garbageEmpty ∨ s.tool = .garbageRagged ∨ s.tool = .garbageMissing ∨ s.tool = .garbageTree then .error errEval
+    else if s.tool = .garbageEmpty ∨ s.tool = .garbageRagged ∨ s.tool = .garbageMissing ∨ s.tool = .garbageLength
+        ∨ s.tool = .garbageTree then .error errEval
     else .ok none
   | .localapp =>
     -- LocalApp.evaluate: exit code
     if s.tool = .exit3 then .error errSubprocess else .ok none
   | w =>
     if s.tool = .exit3 then .error errSubprocess else
-    match parseOutput (toolRows s.tool s.n) (s.tool = .garbageRagged) s.n with
+    match parseOutput (toolRows s.tool s.n) (badLengths s.tool) s.n with
     | .error e => .error e
     | .ok r =>
       -- wrapper part: guide tree file(s)
@@ -329,7 +334,9 @@ def joinBase (s : St) (timeout : Bool) : St × Res :=
   else if s.tool = .hang then (s, .diverges)
   else joinTail { s1 with released := true, state := .finished }
 
-/-- `start()` body: `try: self.run() except: CANCELLED; clean_up(); raise` then RUNNING.
+/-- `start()` body: `try: self.run() except: CANCELLED; (try: clean_up() except Exception: pass); raise` then RUNNING.
+(The inner `try` only matters for subclasses whose `clean_up()` raises; the `clean_up()` of the modelled wrappers never
+does, so the model has no such branch — the real behaviour is checked by the oracle-only case `cleanup-raises`.)
 `LocalApp.run`: `chdir(exec_dir); try: Popen(...) finally: chdir(cwd)`. -/
 def startBody (s : St) : St × Res :=
   -- chdir(self._exec_dir)
